@@ -32,7 +32,12 @@ def case_strategy(combo_list):
         t = gm.library()[c["mat"]][0] if c["mat"] in gm.library() else "monolayer"
         by_type.setdefault(t, []).append(c)
     types = sorted(by_type)
-    stratified = st.sampled_from(types).flatmap(lambda t: st.sampled_from(by_type[t]))
+    # within a type first the form (bulk / slab / monolayer), then the combination: bulk supercells are 2 of the 34 combinations of a
+    # material and would otherwise hardly be drawn for the rare types
+    def of_type(t):
+        forms = sorted({c["form"] for c in by_type[t]})
+        return st.sampled_from(forms).flatmap(lambda f: st.sampled_from([c for c in by_type[t] if c["form"] == f]))
+    stratified = st.sampled_from(types).flatmap(of_type)
     # half of the cases uniformly over all combinations (weights the many elemental fcc/bcc/hcp crystals), half by type
     return st.fixed_dictionaries({"combo": st.one_of(st.sampled_from(combo_list), stratified), "pres": gm.presentations(), "gap": gaps(), "cform": cforms()})
 
